@@ -346,6 +346,7 @@ struct Sched {
     int point = -1;
     bool holds_load_lock = false;
   } t[4];
+  bool free_run = false;  // set when the scheduler gives up controlling this execution: parks become no-ops
   unsigned long gen = 0;  // bumped on every park / completion
   unsigned parkset = 0;  // bit per park point id (0,2,3,5, 8 = factory gate)
   std::thread::id ids[4];
@@ -358,12 +359,13 @@ static void sched_park(int point) {
   Sched& s = *g_s;
   if (getenv("VERIF_SCHED_DEBUG")) fprintf(stderr, "park thread=%d point=%d\n", t_idx, point);
   std::unique_lock<std::mutex> l(s.mu);
+  if (s.free_run) return;
   s.t[t_idx].state = ST_PARKED;
   s.t[t_idx].point = point;
   s.running = -1;
   ++s.gen;
   s.cv.notify_all();
-  s.cv.wait(l, [&] { return s.running == t_idx; });
+  s.cv.wait(l, [&] { return s.running == t_idx || s.free_run; });
   s.t[t_idx].state = ST_RUNNING;
 }
 static void sched_hook(int point, const char*) {
@@ -471,12 +473,28 @@ static SchedResult run_schedule(sup::Ctx& ctx, const Program& P, long serial, co
       if (en.empty()) {
         // every live thread is running (presumed blocked) or disabled: wait, bounded, for any state change
         unsigned long g0 = S.gen;
-        bool progressed = S.cv.wait_for(l, std::chrono::seconds(20), [&] { return S.gen != g0; });
+        bool progressed = S.cv.wait_for(l, std::chrono::seconds(8), [&] { return S.gen != g0; });
         if (!progressed) {
-          ctx.viol("C13", "deadlock:sched", "program=" + std::string(P.label) + " schedule=" + R.choices + " no thread can make progress");
-          ctx.flush();
-          fflush(nullptr);
-          _exit(3);  // the threads cannot be recovered: abandon this worker process
+          // Nothing moves under the scheduler's control. Either the program under test is deadlocked, or the
+          // scheduler's picture of the loader's locks does not fit this code (a thread it thinks can run is blocked by
+          // one it holds back). Decide by letting go: with every thread running freely a real deadlock persists.
+          S.free_run = true;
+          S.cv.notify_all();
+          bool finished = S.cv.wait_for(l, std::chrono::seconds(30), [&] {
+            for (int i = 0; i < S.k; ++i)
+              if (S.t[i].state != ST_DONE) return false;
+            return true;
+          });
+          if (!finished) {
+            ctx.viol("C13", "deadlock:sched", "program=" + std::string(P.label) + " schedule=" + R.choices + " no thread makes progress even when all run freely");
+            ctx.flush();
+            fflush(nullptr);
+            _exit(3);  // the threads cannot be recovered: abandon this worker process
+          }
+          ctx.stat("C13.schedules_finished_in_free_run");
+          R.complete = false;
+          R.choices += "F";
+          break;
         }
         continue;
       }
@@ -496,7 +514,7 @@ static SchedResult run_schedule(sup::Ctx& ctx, const Program& P, long serial, co
       S.running = pick;
       S.cv.notify_all();
       // wait until that thread parks again or finishes; if it blocks on a lock we do not model, fall back
-      bool back = S.cv.wait_for(l, std::chrono::milliseconds(P.optimistic ? 150 : g_has_load_lock ? 5000 : 300), [&] { return S.running == -1; });
+      bool back = S.cv.wait_for(l, std::chrono::milliseconds(P.optimistic ? 150 : g_has_load_lock ? 1500 : 300), [&] { return S.running == -1; });
       if (!back) {
         ++R.fallback_blocked;
         S.running = -1;  // treat as blocked: others may be scheduled; it parks itself when it gets through
@@ -1008,7 +1026,8 @@ int main(int argc, char** argv) {
       if (n == 1 && c % 7 == 0) ctx.sample("C13", std::string("program ") + P.label + " schedule " + R.choices + " (thread index per step; park points: cache miss, inside factory, before insert)");
       // next schedule: backtrack to the deepest step with an untried alternative
       std::vector<int> ch;
-      for (char x : R.choices) ch.push_back(x - '0');
+      for (char x : R.choices)
+        if (x != 'F') ch.push_back(x - '0');
       bool advanced = false;
       for (size_t i = ch.size(); i-- > 2;) {
         const std::vector<int>& en = enabled_at[i];
